@@ -32,7 +32,7 @@ def _prefix(tier):
 
 
 def plan(prop, tier):
-  return len(_prefix(tier)) + (1200 if tier == 'quick' else 30000)
+  return len(_prefix(tier)) + (1200 if tier == 'quick' else 20000)
 
 
 def worker_class(prop, tier, run):
